@@ -25,7 +25,7 @@ package mcp
 // manager_lifecycle.go — C16 (version negotiation, advertised capabilities)
 
 //@ type lifecycleManager
-//@   ctor newLifecycleManager, withProtocolVersion, withSupportedVersions
+//@   ctor newLifecycleManager, withProtocolVersion, withSupportedVersions, withCapabilities
 //@   final[C16] supportedVersions, defaultProtocolVersion
 //@   final[C06,C20] sessionStates
 //@   invariant self.sessionStates != nil
@@ -327,3 +327,108 @@ package mcp
 //@   loop 3 increases[C07 every-iteration-consumes-a-line] rdprog
 //@ func stdioClientTransport.stderrLoop
 //@   waive no-small-token-limit
+
+// ---------------------------------------------------------------------------
+// C12 / C20 / C09 / C05 / C11 — synchronisation discipline.  A field declared
+// `guarded ... by mu` may be read only with mu held (read or write mode) and
+// written only with mu held for writing; map and slice operations on a value
+// loaded from such a field count as accesses of the field.  `final` fields are
+// written only by the constructors.  Observing the discipline excludes data
+// races on the declared fields.
+
+//@ type toolManager
+//@   guarded[C12,C20] tools, toolsOrder by mu
+//@ type resourceManager
+//@   guarded[C12,C20] subscribers by subMu
+//@ type httpServerHandler
+//@   guarded[C11,C20] getSSEConnections by getSSEConnectionsLock
+//@ type getSSEConnection
+//@   guarded[C09,C20] lastEventID by writeLock
+//@ type responseManager
+//@   guarded[C05,C20] pendingRequests by mutex
+//@ type SSEServer
+//@   guarded[C05,C20] responses by responsesMu
+//@   guarded[C12,C20] notificationHandlers by notificationMu
+//@ type Server
+//@   guarded[C12,C20] notificationHandlers by notificationMu
+//@ type StdioServer
+//@   guarded[C05,C20] responses by responsesMu
+//@   guarded[C12,C20] notificationHandlers by notificationMu
+//@ type sseSession
+//@   guarded[C20] data by dataMu
+//@ type stdioSession
+//@   guarded[C20] data, lastActivity by mu
+//@ type lifecycleManager
+//@   guarded[C20] sessionStates, capabilities by mu
+//@ type DefaultRootsProvider
+//@   guarded[C20] roots by mu
+//@ type streamableHTTPClientTransport
+//@   init newStreamableHTTPClientTransport, withClientTransportGetSSEEnabled
+//@   guarded[C12,C20] notificationHandlers by handlersMutex
+//@   final[C20] sessionID, lastEventID, isStateless, enableGetSSE
+//@ type sseClientTransport
+//@   guarded[C20] responses by responsesMu
+//@   guarded[C20] onNotification by notificationMu
+//@ type stdioClientTransport
+//@   guarded[C20] pendingRequests by pendingMutex
+//@   guarded[C12,C20] notificationHandlers by handlersMutex
+//@ type Client
+//@   guarded[C20] rootsProvider by rootsMu
+//@   final[C20] initialized, state
+//@ type StdioClient
+//@   guarded[C20] rootsProvider by rootsMu
+
+// ---------------------------------------------------------------------------
+// C09 — one message per frame: every write to a stream shared between
+// goroutines happens with that stream's lock held, one frame per critical section
+
+//@ ghost stable writes int
+//@
+//@ type getSSEConnection
+//@   guarded[C09,C20] writer, flusher, sseResponder by writeLock
+//@ type sseStream
+//@   final[C09,C20] writer, flusher, mu, logger
+//@   guarded[C09,C20] writer, flusher by mu
+//@
+//@ func handleEventQueue
+//@   before call fmt.Fprint#1 assert[C09 frame-written-under-the-session-write-lock] held(session.writeMu) == 2
+//@   before call safeFlush#1 assert[C09 flushed-under-the-session-write-lock] held(session.writeMu) == 2
+//@ func handleKeepAlive
+//@   before call fmt.Fprint#1 assert[C09 keepalive-comment-written-under-the-session-write-lock] held(session.writeMu) == 2
+//@   before call safeFlush#1 assert[C09 flushed-under-the-session-write-lock] held(session.writeMu) == 2
+//@ func handleNotifications
+//@   before call fmt.Fprintf#1 assert[C09 frame-written-under-the-session-write-lock] held(session.writeMu) == 2
+//@   before call safeFlush#1 assert[C09 flushed-under-the-session-write-lock] held(session.writeMu) == 2
+//@ func stdioTransport.writeResponse
+//@   before call Write#1 assert[C09 line-written-under-the-output-lock] held(s.writeMu) == 2
+//@   ensures[C09 exactly-one-write-per-message] writes <= old(writes) + 1
+//@   callspec writer.Write
+//@     counted writes
+//@     modifies *
+
+// ---------------------------------------------------------------------------
+// C12 — registries: each operation is one critical section (lockops counts the
+// lock acquisitions made by the function itself), and its effect on the
+// registry is stated relative to the registry as found when the lock was taken
+// (atlock), since other goroutines may change it until then.
+
+//@ func toolManager.registerTool
+//@   ensures[C12 one-critical-section] lockops == old(lockops) + 1
+//@   ensures[C12 entry-replaced-with-one-store] tool != nil && tool.Name != "" ==> (tool.Name in m.tools) && m.tools[tool.Name].Tool == tool && m.tools[tool.Name].Handler == handler
+//@   ensures[C12 other-entries-untouched] forall k string :: (tool == nil || k != tool.Name) ==> ((k in m.tools) <==> atlock(k in m.tools)) && m.tools[k] == atlock(m.tools[k])
+//@ func toolManager.getTool
+//@   ensures[C12 one-critical-section] lockops == old(lockops) + 1
+//@   ensures[C12 absent-name-not-found] !atlock(name in m.tools) ==> !ret1 && ret == nil
+//@   ensures[C12 present-name-found] atlock(name in m.tools) ==> ret1 && ret == atlock(m.tools[name]).Tool
+//@ func toolManager.getTools
+//@   ensures[C12 one-read-locked-snapshot] lockops == old(lockops) + 1
+//@   loop 1 invariant[C12] len(tools) <= yielded(1)
+//@   ensures[C12 no-phantom-or-duplicate-entry] len(result) <= atlock(len(m.tools))
+//@ func toolManager.unregisterTools
+//@   ensures[C12 one-critical-section] lockops <= old(lockops) + 1
+//@   loop 1 invariant[C12] 0 <= unregisteredCount && unregisteredCount <= rangeindex + 1 && rangeindex < len(names)
+//@   ensures[C12 count-bounded-by-names] 0 <= result && result <= len(names)
+//@ func promptManager.registerPrompt
+//@   ensures[C12 one-critical-section] lockops == old(lockops) + 1
+//@ func resourceManager.registerResource
+//@   ensures[C12 one-critical-section] lockops == old(lockops) + 1
